@@ -89,6 +89,35 @@ prop("C13", "exploration",
      "history recording + porcupine linearizability checker + polynomial history checks, delay injection at yield points", "DESIGN.md §3 C13")
 
 
+prop("C14", "exploration",
+     "cases = steps of seed-generated add / re-add of a just-removed number / remove(first|middle|last|random) / lookup / iterate / iterate-and-remove-everything / count "
+     "histories over arbitrary descriptor numbers on the real connMatrix (built twice: map variant and gc_opt matrix variant), compared with a plain map after every step "
+     "(full comparison incl. iteration while <= 64 live, else every 97th step), plus a 70000-entry population crossing the 65536-entry row boundary with removals on both "
+     "sides. distinct_nontrivial = distinct (variant, operation, position class of the removed entry, population class, rows in use) tuples checked",
+     [
+         {"harness": "reg", "args": {"quick": [], "thorough": []}, "timeout": {"quick": 300, "thorough": 1800}},
+         {"harness": "reg", "tags": ["gc_opt"], "args": {"quick": ["--n", "1200"], "thorough": ["--n", "20000"]}, "timeout": {"quick": 600, "thorough": 3000}},
+     ],
+     "Reference-model monitor over the package-internal registry in both build variants; lookups, counts, stored positions (fd2gfd/table/gfd agree) and iteration are "
+     "checked after every step.",
+     "the registry is reached through a verif-tagged export file injected by overlay; conn objects are bare (no sockets)",
+     "runtime reference-model monitor (model-based operation sequences, both build variants)", "DESIGN.md §3 C14")
+
+prop("C16", "exploration",
+     "cases = address strings: well-formed ones from a grammar (7 schemes x host kinds {name, IPv4, bracketed IPv6, zones incl. '%' and '%25', empty host} x port kinds, unix paths with "
+     "./..//, %, spaces, UTF-8) whose expected (scheme, endpoint) the generator knows without consulting net/url, and ill-formed ones by 11 seeded mutation operators (applied once or twice); "
+     "plus option values (every 2^k and 2^k+-1 up to 2^62, <=0, random) through NewClient and createListeners(port 0), and Multicore/NumEventLoop combinations. "
+     "distinct_nontrivial = distinct (grammar class) and (mutation class, accepted/rejected) and option groups exercised",
+     [
+         {"harness": "parse", "args": {"quick": [], "thorough": []}, "timeout": {"quick": 300, "thorough": 1800}},
+     ],
+     "Oracle over parseProtoAddr / createListeners / NewClient / determineEventLoops: totality (panics caught per input), exact expected result for grammar inputs, error classes the "
+     "statement names, accepted mutants returned as written, normalised capacities powers of two >= request.",
+     "inputs containing ?, # or @ are URL delimiters and are checked for totality and for 'one of seven schemes, non-empty endpoint' only; Go's native fuzzer is not used because "
+     "it writes crashers into the package directory (i.e. into /repo)",
+     "runtime oracle over grammar-generated and mutated inputs", "DESIGN.md §3 C16")
+
+
 # ---------------------------------------------------------------------------------------
 NOT_APPLICABLE = []
 
